@@ -122,17 +122,25 @@ func init() {
 // type assertion, make) that discharge on the unchanged tree with the built-in invariants only; each must keep discharging.
 func sweepChecker(cr *checkRun) {
 	fulls := sweepFuncs(cr.prog, sweepPkgs)
-	underContract := map[string]bool{}
-	for _, u := range allVerifiedUnits() {
-		underContract[u] = true
+	own := map[string]bool{}
+	for _, u := range cr.prop.Units {
+		own[u] = true
 	}
 	var sel []string
 	for _, full := range fulls {
-		if underContract[full] || cr.prog.Contracts[full] != nil {
-			continue // verified as a unit under (full or partial) contract elsewhere
+		if own[full] {
+			continue // verified as a unit of this property under full contract
 		}
+		// functions under (full or partial) contract for other properties are swept too, WITH their contracts and
+		// invariants: "no panic" claims their discharged safety obligations here
 		sel = append(sel, full)
 	}
+	for full, fi := range cr.prog.Funcs {
+		if fi.Name != "" && !own[full] {
+			sel = append(sel, full) // goroutine bodies
+		}
+	}
+	sort.Strings(sel)
 	registryCheck(cr, cr.prop.ID+"-sweep", "sweep", sel, true)
 }
 
@@ -211,8 +219,10 @@ func registryCheck(cr *checkRun, regName, label string, fulls []string, safetyOn
 	seen := map[string]bool{}
 	for _, o := range all {
 		if o.Cover {
-			if !o.OK() {
+			if !o.OK() && o.Res.Status == "unsat" {
 				cr.viol = append(cr.viol, violation{Obligation: o.Name, Kind: "vacuity", Detail: "cover not satisfiable (" + o.Res.Status + ")"})
+			} else if !o.OK() {
+				cr.undecided = append(cr.undecided, "vacuity guard undecided ("+o.Res.Status+"): "+o.Name)
 			}
 			continue
 		}
